@@ -33,14 +33,70 @@ func pathCond(c *schema.Ctx, body []ast.Stmt, target ast.Node) (string, bool) {
 		}
 		return false
 	}
+	// fall: the condition under which control runs off the end of list ("true"/"false" when constant)
+	var fall func(list []ast.Stmt) string
+	and := func(a, b string) string {
+		switch {
+		case a == "false" || b == "false":
+			return "false"
+		case a == "true":
+			return b
+		case b == "true":
+			return a
+		}
+		return paren(a) + " && " + paren(b)
+	}
+	or := func(a, b string) string {
+		switch {
+		case a == "true" || b == "true":
+			return "true"
+		case a == "false":
+			return b
+		case b == "false":
+			return a
+		}
+		return "(" + a + " || " + b + ")"
+	}
+	fallStmt := func(st ast.Stmt) string {
+		switch s := st.(type) {
+		case *ast.IfStmt:
+			cnd := c.ExprStr(s.Cond)
+			fb := fall(s.Body.List)
+			fe := "true"
+			switch el := s.Else.(type) {
+			case *ast.BlockStmt:
+				fe = fall(el.List)
+			case *ast.IfStmt:
+				fe = fall([]ast.Stmt{el})
+			}
+			return or(and(cnd, fb), and(schema.NegGuard(cnd), fe))
+		case *ast.BlockStmt:
+			return fall(s.List)
+		}
+		if leaves([]ast.Stmt{st}) {
+			return "false"
+		}
+		return "true"
+	}
+	fall = func(list []ast.Stmt) string {
+		out := "true"
+		for _, st := range list {
+			out = and(out, fallStmt(st))
+			if out == "false" {
+				break
+			}
+		}
+		return out
+	}
 	var conds []string
 	var find func(list []ast.Stmt) bool
 	find = func(list []ast.Stmt) bool {
 		for _, st := range list {
 			if !contains(st) {
-				// an earlier guard that leaves: its negation holds afterwards
-				if is, ok := st.(*ast.IfStmt); ok && is.Else == nil && leaves(is.Body.List) {
-					conds = append(conds, schema.NegGuard(c.ExprStr(is.Cond)))
+				// an earlier statement that may leave: the condition under which it falls through
+				// holds afterwards
+				if f := fallStmt(st); f != "true" {
+					conds = append(conds, f)
 				}
 				continue
 			}
@@ -173,4 +229,11 @@ func unsatWith(a, b string) (bool, bool) {
 		}
 	}
 	return true, true
+}
+
+func paren(s string) string {
+	if strings.ContainsAny(s, "&|") && !(strings.HasPrefix(s, "(") && strings.HasSuffix(s, ")") && balanced(s[1:len(s)-1])) {
+		return "(" + s + ")"
+	}
+	return s
 }
